@@ -19,6 +19,8 @@ class C17Tables(Scenario):
         if self.n_gen >= self.cfg["steps"]:
             return None
         self.n_gen += 1
+        if rng.chance(1, 12):
+            return {"op": "add", "k": rng.below(self.cfg["universe"]), "n": 0}  # adding nothing is still an add of that key
         return self.sub.gen_op(rng)
 
     def setup(self, cfg):
